@@ -47,9 +47,16 @@ def _resume(self, event):
     try:
         r = _orig_resume(self, event)
         tgt = getattr(self, "_target", None)
-        if isinstance(tgt, simpy.events.Timeout) and rec.act is not None and self.is_alive:
-            d = f2t(tgt._delay)
-            rec.act["calls"].append(f"wait {d if d is not None else tgt._delay}")
+        if rec.act is not None and self.is_alive and tgt is not None:
+            from simpy.resources.resource import Request, Release
+            if isinstance(tgt, simpy.events.Timeout):
+                d = f2t(tgt._delay)
+                rec.act["calls"].append(f"wait {d if d is not None else tgt._delay}")
+            elif isinstance(tgt, simpy.events.AnyOf): rec.act["calls"].append(f"await any {len(tgt._events)}")
+            elif isinstance(tgt, simpy.events.AllOf): rec.act["calls"].append(f"await all {len(tgt._events)}")
+            elif isinstance(tgt, simpy.events.Process): rec.act["calls"].append("await proc")
+            elif isinstance(tgt, (Request, Release)): rec.act["calls"].append("await req")
+            else: rec.act["calls"].append("await tok")
         return r
     except BaseException as ex:
         if rec.act is not None: rec.act["calls"].append(f"crash {type(ex).__name__}")
@@ -166,10 +173,16 @@ class Recorder:
         for name in ("reserve_put", "reserve_get", "put", "get", "reserve_put_cancel", "reserve_get_cancel"):
             setattr(store, name, wrap(name, getattr(store, name)))
         cp = edge.can_put
+        edge._fs_can_put = cp
         def can_put():
+            act = rec.act
+            if act is not None and "room" not in act:
+                # oracle for the judges: which out-edges of this node have room right now (observation only)
+                node = rec.nodes[act["node"]][1]
+                act["room"] = [bool(getattr(e2, "_fs_can_put", e2.can_put)()) for e2 in (node.out_edges or [])]
             r = cp()
-            if rec.act is not None:
-                rec.act["calls"].append(f"can e{rec.rel(rec.act['node'], ei, 'put')} {int(bool(r))}")
+            if act is not None:
+                act["calls"].append(f"can e{rec.rel(act['node'], ei, 'put')} {int(bool(r))}")
             return r
         edge.can_put = can_put
 
